@@ -51,6 +51,7 @@ theorem step_inv (tbl : P → T) (pdfOf : T → T) (F : D → T → T → R) (s 
     obtain ⟨_, i1, _, _⟩ := ensureSf_spec tbl pdfOf s h
     obtain ⟨_, i2, _, _⟩ := ensurePdf_spec tbl pdfOf (ensureSf tbl s).1 i1
     exact i2
+  | setPrmsFailed p' => exact h
 
 theorem run_inv (tbl : P → T) (pdfOf : T → T) (F : D → T → T → R) (ops : List (HOp P D))
     (s : HState P T D R) (h : Inv tbl pdfOf s) :
